@@ -277,4 +277,16 @@ def status_sweep(tier, rng):
             else:
                 m = line + b"Transfer-Encoding: chunked\r\nTrailer: T\r\n\r\n3\r\nabc\r\n0\r\nT: v\r\n\r\n"
             out.append({"label": "status %d, framing %s, bytes after the message" % (code, fr), "stream": m + b"HTTP/1.1 200 OK\r\n\r\n", "framing": fr, "msg_len": len(m), "code": code})
+    # ... and the codes with a meaning of their own next to every header field of interest (tenth round: 101 together with an
+    # Upgrade field swallowed what followed): body-less framing, bytes after the message
+    d = srcdict.load()
+    names = sorted(set(HEADERS_OF_INTEREST) | set(d["names"]) | set([b"Upgrade", b"Connection", b"Sec-WebSocket-Accept", b"Location", b"Retry-After", b"WWW-Authenticate", b"Set-Cookie", b"Allow", b"Date"]))
+    codes = sorted(c for c in special if 0 <= c < 1000 and (c in (100, 101, 102, 103, 199, 200, 204, 205, 206, 301, 304, 401, 407, 426, 999) or c in set(v for v in d["ints"] if v < 1000)))
+    for code in codes:
+        for name in names:
+            if name.lower() in (b"content-length", b"transfer-encoding"):
+                continue
+            for value in (b"websocket", b"x, Upgrade", b"1"):
+                m = b"HTTP/1.1 %d X\r\n" % code + name + b": " + value + b"\r\nConnection: Upgrade\r\n\r\n"
+                out.append({"label": "status %d with %s: %s, no body, bytes after the message" % (code, name.decode("latin-1"), value.decode()), "stream": m + b"\x81\x05hello", "framing": "none", "msg_len": len(m), "code": code})
     return out
